@@ -546,15 +546,55 @@ func (e *c18Env) readEvents() ([]c18Event, error) {
 	}
 	out := make([]c18Event, 0, len(recs))
 	for _, r := range recs {
-		ev := &client.ActivityStreamEvent{}
-		if err := pb.Unmarshal(r.Value, ev); err != nil {
-			out = append(out, c18Event{Offset: r.Offset, Bad: "message at offset " + fmt.Sprint(r.Offset) + " is not an ActivityStreamEvent: " + err.Error()})
-			continue
-		}
-		canon, op, bad := c18CanonEvent(ev)
-		out = append(out, c18Event{Offset: r.Offset, ID: ev.GetId(), Op: op, Canon: canon, Bad: bad})
+		out = append(out, c18Decode(r.Offset, r.Value))
 	}
 	return out, nil
+}
+
+func c18Decode(offset int64, value []byte) c18Event {
+	ev := &client.ActivityStreamEvent{}
+	if err := pb.Unmarshal(value, ev); err != nil {
+		return c18Event{Offset: offset, Bad: "message at offset " + fmt.Sprint(offset) + " is not an ActivityStreamEvent: " + err.Error()}
+	}
+	canon, op, bad := c18CanonEvent(ev)
+	return c18Event{Offset: offset, ID: ev.GetId(), Op: op, Canon: canon, Bad: bad}
+}
+
+// subscribeEvents opens a real subscription to __activity from the earliest
+// offset on the partition leader and takes n messages (watchdog => nil).
+func (e *c18Env) subscribeEvents(n int) []c18Event {
+	var srv *Server
+	for _, nd := range e.c.Running() {
+		if q := nd.Partition(c18ActivityStream, 0); q != nil && q.IsLeader() {
+			srv = nd.Server()
+			break
+		}
+	}
+	if srv == nil {
+		return nil
+	}
+	ctx, cancel := context.WithCancel(context.Background())
+	defer cancel()
+	sub, err := srv.api.SubscribeInternal(ctx, &client.SubscribeRequest{Stream: c18ActivityStream, Partition: 0, StartPosition: client.StartPosition_EARLIEST})
+	if err != nil {
+		e.logf("subscribe to %s: %v", c18ActivityStream, err)
+		return nil
+	}
+	defer sub.Close()
+	out := make([]c18Event, 0, n)
+	wd := time.After(30 * time.Second)
+	for len(out) < n {
+		select {
+		case m := <-sub.Messages():
+			out = append(out, c18Decode(m.Offset, m.Value))
+		case st := <-sub.Errors():
+			e.logf("subscription error: %v", st)
+			return nil
+		case <-wd:
+			return nil
+		}
+	}
+	return out
 }
 
 // ---------------------------------------------------------------- driving operations
@@ -1007,6 +1047,17 @@ func (e *c18Env) finish(fenceName string) {
 	if conflict != "" {
 		e.inconclusive("Raft log capture is inconsistent: " + conflict)
 		return
+	}
+	if arrived {
+		// the verdict is taken on what a real subscription from the earliest
+		// offset delivers (the log read above only paces the waiting)
+		sub := e.subscribeEvents(len(events))
+		if sub == nil {
+			e.inconclusive(fmt.Sprintf("a subscription to %s from the earliest offset did not deliver the %d committed events (watchdog)", c18ActivityStream, len(events)))
+			return
+		}
+		e.rep.Count("events_via_subscription", int64(len(sub)))
+		events = sub
 	}
 	first, ok := e.checkSafety(events)
 	if !ok {
